@@ -13,8 +13,8 @@ import (
 
 func init() {
 	props["C01"] = &propCheck{
-		lean: []string{"JSight.Props.C01_Scanner", "JSight.Props.C01_Term", "JSight.Props.C02", "JSight.Props.C07", "JSight.Props.C08_Include"},
-		exes: []string{"jsight-scan"},
+		lean: []string{"JSight.Props.C01_Scanner", "JSight.Props.C01_Term", "JSight.Props.C01_Project", "JSight.Props.C02", "JSight.Props.C07", "JSight.Props.C08_Include"},
+		exes: []string{"jsight-scan", "jsight-build"},
 		run:  runC01,
 		rule: "root files: all sequences up to the length bound over the 66-token scanner alphabet, sampled longer sequences, all fixture files and byte-level mutants of them, generated documents and mutants; projects: generated include graphs (empty, missing, directory, self-including, cyclic, diamond, deep) and macro graphs (chains, cycles of length 1..6, unused); every project is processed in a child process with a time limit; non-trivial = the scanner emits >= 2 lexemes or the project has >= 2 files; distinct = distinct project bytes",
 		assume: []string{
@@ -225,6 +225,8 @@ func corpusProjects() []Project {
 
 func runC01(ctx *Ctx) {
 	r := ctx.Rng.Fork()
+	// tie of the composed model (Props/C01_Project: process_no_fault, process_total) to the real pipeline
+	projectCorrSuite(ctx, r.Fork(), ctx.Budget(1000, 60000))
 	projects := corpusProjects()
 	depth := 2
 	enumTokenSeqs(scanTokens, depth, func(b []byte) { projects = append(projects, SingleFile(append([]byte("JSIGHT 0.3\n"), b...))) })
